@@ -4,7 +4,7 @@
 //	hx-c14 lock  --n N --len L   lockstep histories: every observation after every call goes to cases.v
 //	hx-c14 sched --n N           forced schedules on DerivedVariable2..4: writers held at callback boundaries (sched.go)
 //	hx-c14 reent --n N           re-entrant callbacks: scripted calls back into the object from inside its callbacks (reent.go)
-//	hx-c14 conc  --runs R        free-running writers (<= 4 goroutines) + quiescence barrier, judged in Go against
+//	hx-c14 conc  --runs R --fresh F  F barrier-released rounds of first operations on fresh objects (fresh.go), then free-running writers (<= 4 goroutines) + quiescence barrier, judged in Go against
 //	                             the defining function; directed schedules for D14b / D14c; all under watchdogs
 package main
 
@@ -117,6 +117,7 @@ func main() {
 	seed := fs.Uint64("seed", 1, "")
 	out := fs.String("out", "cases.v", "")
 	stats := fs.String("stats", "stats.json", "")
+	fresh := fs.Int("fresh", 4000, "conc: barrier-released rounds of first operations on fresh objects (fresh.go)")
 	probe := fs.Bool("probe", false, "reent: print which (callback site, scripted call) pairs complete")
 	_ = fs.Parse(os.Args[2:])
 	r := vx.NewRng(*seed)
@@ -166,8 +167,9 @@ func main() {
 			vx.Die("%v", err)
 		}
 	case "conc":
-		st := vx.NewStats("free-running runs: 2-4 goroutines write different inputs / sources / weights / elements concurrently (structural changes interleaved), quiescence barrier, then the derived value is compared with its defining function of the inputs' final values; every run under a watchdog; distinct = distinct (kind, script); non-trivial = at least two goroutines performed an effective write")
-		concAll(r, st, *runs)
+		st := vx.NewStats("free-running runs: 2-4 goroutines write different inputs / sources / weights / elements concurrently (structural changes interleaved), quiescence barrier, then the derived value is compared with its defining function of the inputs' final values; every run under a watchdog; before them barrier-released rounds of FIRST operations on fresh objects (fresh.go: 2-4 workers leave a spin barrier within nanoseconds into EvictionEvent of the same new slot / InheritFrom, Add, SubtractReactive, OnUpdate on fresh sets / Monitor on a fresh counter / Add of the same new element to a fresh WaitGroup or SortedSet / NewDerivedVariable2 and InheritFrom over fresh variables), judged at quiescence by the same defining functions; distinct = distinct (kind, script); non-trivial = at least two goroutines performed an effective write")
+		// (the first-use rounds draw from a stream of their own: the free-running runs of a seed stay what they were)
+		concAll(r, vx.NewRng(*seed*0x9E3779B9+14), st, *runs, *fresh)
 		if err := st.Write(*stats); err != nil {
 			vx.Die("%v", err)
 		}
